@@ -8,5 +8,15 @@ pub mod model;
 pub mod worlds;
 pub mod steps;
 pub mod c01;
+pub mod c02;
+pub mod c03;
+pub mod c04;
+pub mod c06;
+pub mod c07;
+pub mod c08;
+pub mod c09;
+pub mod c10;
+pub mod c12;
+pub mod c13;
 #[cfg(not(kani))]
 pub mod replay_table;
